@@ -29,7 +29,10 @@ ASSUMPTIONS = [
     "SetupData.connect/close are replaced by coroutines answering True/False; interface and Features instances are the real "
     "ones from the real set-up loop of pyatv.connect; the connected set is the set of protocols whose connect answered True",
     "'the member does not fail merely because nothing implements it' is evaluated as: Relayer.relay(member) returns an "
-    "instance attribute instead of raising NotSupportedError (FacadeStream.play_url's availability gate is a different reason)",
+    "instance attribute instead of raising NotSupportedError, and invoking the member through the device object (recorders "
+    "in place of the implementations) with default-style arguments and with every other value of its enum-typed / "
+    "optional parameters does not raise NotSupportedError; FacadeStream.play_url's refusal while PlayUrl is not Available "
+    "is a different reason and is not judged",
     "a feature tagged on two members (VolumeUp/VolumeDown: RemoteControl and Audio) is backed when one of them is",
     "the rich state is produced by replacing the collaborators the five get_feature implementations read "
     "(player state manager, play status, control flags, power state, playback manager) by fakes with every condition true",
@@ -70,6 +73,16 @@ def relay_ok(world, iface, member):
         return False
     except Exception:
         return True   # found an instance; evaluating a property on it failed for another reason
+
+
+def invoke_all(world, todo):
+    import warnings
+
+    async def go():
+        return [await world._call(i, m, override) for (_f, _s, i, m, _l, override) in todo]
+
+    with warnings.catch_warnings(record=True):
+        return world.p.loop.run_until_complete(go())
 
 
 def kv(s):
@@ -189,7 +202,7 @@ def run(ctx, only=None):
                     if status != "ok":
                         ctx.disagree({"scenario": sc, "holder": holder}, status, "ok", where="takeover of all interfaces")
                         continue
-                reported, backed, amap = {}, {}, {}
+                reported, backed, amap, todo = {}, {}, {}, []
                 for f in feats:
                     try:
                         state = world.atv.features.get_feature(f).state.name
@@ -215,6 +228,10 @@ def run(ctx, only=None):
                                  f"connected {'+'.join(S)} ({key}, takeover holder {holder or 'none'}) reports {f.name}={state} "
                                  f"(answered by {amap[f.name]}) but no connected protocol implements "
                                  f"{', '.join('%s.%s' % m for m in members) or '(no member)'}")
+                    if nontrivial:
+                        for (i, m) in ok:
+                            if i in h01.NINE:
+                                todo += [(f.name, state, i, m, label, override) for label, override in [("", None)] + world.variants(i, m)]
                     if nontrivial and ok and amap[f.name] != "-":
                         i, m = ok[0]
                         try:
@@ -224,6 +241,25 @@ def run(ctx, only=None):
                         serving = patches.owner.get(id(getattr(target, "__self__", None)))
                         if serving is not None:
                             ctx.note("answering-vs-serving:" + ("same" if serving == amap[f.name] else "different"))
+                # the reported features' members, actually invoked through the device object with
+                # default-style arguments and every other value of their enum / optional parameters
+                gate = None
+                for (fname, state, i, m, label, _o), got in zip(todo, invoke_all(world, todo)):
+                    ctx.note("invoked:" + ("not-supported" if got.startswith("!") else "served"))
+                    if not got.startswith("!"):
+                        continue
+                    if (i, m) == ("Stream", "play_url"):
+                        gate = world.gate_open() if gate is None else gate
+                        if not gate:
+                            ctx.note("oracle:play_url-gate-closed-not-judged")
+                            continue
+                    call = f"{i}.{m}({label})"
+                    ctx.fail(f"{key}:{holder or '-'}:{fname}:{call}",
+                             {"scenario": sc, "holder": holder, "feature": fname, "call": call},
+                             f"{state}; {call} raised NotSupportedError", "the call is routed to an implementation",
+                             f"connected {'+'.join(S)} ({key}, takeover holder {holder or 'none'}) reports {fname}={state} "
+                             f"and a connected protocol implements {i}.{m}, but {call} through the device object "
+                             f"fails with NotSupportedError")
                 if release:
                     release()
                 obs.append((sc, S, video, holder, reported, backed, amap))
